@@ -392,7 +392,7 @@ for _k0, _kn in enumerate(['mirror', 'v4ext', 'v6ext', 'l2sts']):
     if _k0 == 0:
         add("topology_level_services_two_creation_orders/" + _kn, _mk_topo(_k0, False), timeout=600, encodes=ENC_T, tiers=("quick",),
             bounds="as topology_level_services_any_creation_order/mirror with the given and the reversed creation order only")
-    add("topology_level_services_any_creation_order/" + _kn, _mk_topo(_k0, True), timeout=1500, encodes=ENC_T,
+    add("topology_level_services_any_creation_order/" + _kn, _mk_topo(_k0, True), timeout=3600, encodes=ENC_T,
         tiers=("thorough",),
         bounds="real slice built through the topology API (2 VMs with smart NICs on 2 sites, facility, bridge giving an in-slice port) + a %s service, a "
                "second service of symbolic kind in {port mirror, FABNetv4Ext, FABNetv6Ext, L2STS} and a third external port mirror; sites symbolic (2), "
